@@ -354,6 +354,13 @@ func runCheck(prop, tier, only string, verbose bool) int {
 	return 0
 }
 
+var globalAssumptions = []string{
+	"the SSA->SMT translator in /verif/engine is faithful to Go semantics for the instruction kinds it executes (validated per run by replaying one solver-chosen input per harness natively and by replaying every counterexample)",
+	"solver verdicts of z3 4.8.12 / cvc5 1.0 are trusted; unknown, timeout and (error lines are reported as inconclusive, never as success",
+	"stubs: fmt.Errorf builds no message and only records the %w operand; errors.Is walks Unwrap chains by identity; sync.Pool is a LIFO free list; bytes.Buffer is modelled on its buf/off fields; maps iterate in insertion order; time.Time is the tuple (Y,M,D,ns-of-day,UTC) without normalisation",
+	"package initialisers of astits/astikit/io are executed from current source on every path; other std initialisers are not run",
+}
+
 func hasPrefixAny(s string, ps []string) bool {
 	for _, p := range ps {
 		if strings.HasPrefix(s, p) {
@@ -406,7 +413,8 @@ func runTasks(prog *ssa.Program, pkg *ssa.Package, runs []*taskRun, openKnown ma
 			}
 			cfg.Merge = !r.spec.NoMerge
 			cfg.MaxPaths = r.spec.MaxPaths
-			cfg.Workers = per
+			cfg.Workers = 16
+			_ = per
 			if r.spec.Workers > 0 {
 				cfg.Workers = r.spec.Workers
 			}
@@ -482,7 +490,7 @@ func writeEvidence(prop, tier string, seed int64, spec PropSpec, agg *TaskResult
 		"seed":        seed,
 		"level":       "model_checking",
 		"coverage":    cov,
-		"assumptions": spec.Assumptions,
+		"assumptions": append(append([]string{}, globalAssumptions...), spec.Assumptions...),
 		"wall_s":      wall.Seconds(),
 		"violations":  violations,
 	}
